@@ -59,6 +59,23 @@ NEEDS = {
  "C13d-resolver-unbinds-class-receiver": "obj.meth where obj is itself a class (method of a metaclass reached through one of its instances, classmethod)",
  "C14d-register-discard-empty-captures": "a function that is a pure path element of a call-path selector (empty capture set) resolved by reference while that probe is active",
  "C17d-deactivate-guard-derived-handle": "deactivate() called on a derived handle (probe['a'], probe.min()) of a global probe instead of the root",
+ "C16e-intercept-last-result-even-absent": "two intercepting handlers match the same declared-only variable and the one registered last declines (failed value condition / ABSENT) on that call",
+ "C01e-dictpile-none-treated-as-missing": "a module global that the function only reads, holds None at call time and is in the instrumented set (tooled / selector names it)",
+ "C04e-should-instrument-memo-by-name": "tagged focus on a variable bound several times with different annotations, the first binding in source order not carrying the tag, selective instrumentation",
+ "C10e-evaluate-catches-nameerror-only": "a local annotation whose evaluation raises something other than NameError (callable[[int], int], mod.Missing, 1/0)",
+ "C11e-workingframe-skips-check-for-generic": "a variable with one tagged and one untagged binding, the untagged binding instrumented by something else (tooled / a second probe)",
+ "C15e-interning-cache-capped": "more than 1024 distinct selectors compiled between two compilations of equivalent spellings",
+ "C18e-call-args-partition-else-children": "a parenthesised sequence to the left of a comma inside call arguments: f((a, b), c)",
+ "C02e-unpack-fast-path-ignores-nested-targets": "a nested unpacking target (key, (lo, hi) = item) with a selector naming only nested variables",
+ "C05e-untooler-releases-stack-on-zero-captures": "a function tooled both as a pure path element (empty captures) and with captures, the capture-bearing tooling removed first",
+ "C06e-fits-selector-loop-hashvar-rsplit": "#loop_/#endloop_ events selected by name for a loop variable whose name contains an underscore",
+ "C12e-build-caches-inherited-captures": "a constrained variable of an outer function assigned only after the first event of an inner generator whose frame outlives that event",
+ "C17e-overlay-entered-before-tooling": "a multi-selector probe whose later selector is refused, the first selector's variable instrumented by another probe / tooled",
+ "C03e-build-caches-parent-captures": "a chain of >= 3 functions with a sibling call first made from inside the focus function after its first binding, followed by a second binding",
+ "C13e-hasval-ignores-children": "an object-bound method as a CHILD of an outer call that has no value constraint of its own (drive > a.meth > v)",
+ "C07e-register-dedups-per-accumulator": "two capture elements of one selector designating the same variable of the same call (two aliases, named + generic tag capture, two sub-selectors on one function)",
+ "C09e-sibling-selectors-pruned-on-entry": "sibling call patterns sharing one accumulator (driver(gen(a), leaf(!x))), one of them a generator suspended while the driver calls the other",
+ "C14e-resolver-caches-reference-code": "the same reference string resolved twice with the function's probe state different between the two resolutions",
  "C18d-expect-message-encode": "a parenthesised comma sequence where a single variable / call is required ((a,b):T, (a,b) > x)",
 }
 rows = []
